@@ -89,6 +89,10 @@ def cliOp (args impl : List String) : Option (String × String) := do
           "FAIL later-component-of-a-combined-scenario-did-not-run-exactly-when-the-earlier-one-did-not-stop"
         else if out "envAfter" = "dirty" then "FAIL stage-parameters-remain-set-after-the-run"
         else if n "leak" > 0 then "FAIL goroutine-remains-after-the-command-returned"
+        else if (out "labels").startsWith "bad" then s!"FAIL pushed-series-lack-the-scenario-name-or-a-static-label-{out "labels"}"
+        else if ((get "pushgw") = some "ok" ∨ (get "pushgw") = some "fail1") ∧ (triple "pushed").length = 4 ∧
+            (triple "pushed").getD 3 0 > 0 ∧ (triple "pushed").take 3 ≠ stats then
+          "FAIL pushed-metrics-differ-from-the-result"
         else if (match (get "retmax").bind String.toInt? with | some m => decide (n "ret" > m) | none => false) then
           "FAIL command-did-not-return-once-its-run-was-over"
         else
